@@ -39,6 +39,9 @@ type Script struct {
 	CancelAtRead int `json:"cancel_at_read,omitempty"`
 	// FlushErr makes Flush fail (serial).
 	FlushErr bool `json:"flush_err,omitempty"`
+	// DeadConn: once the request has been written the connection is dead the way a locally closed socket is: the
+	// deadline setters fail, and so does every Read, all with the connection's injected error.
+	DeadConn bool `json:"dead_conn,omitempty"`
 }
 
 // Event is one logged transport call.
@@ -174,6 +177,11 @@ func (c *Conn) Read(p []byte) (int, error) {
 		return 0, os.ErrDeadlineExceeded
 	}
 	c.reads++
+	if c.S.DeadConn {
+		c.log("read", 0, c.injErr, nil)
+		c.mu.Unlock()
+		return 0, c.injErr
+	}
 	var n int
 	var err error
 	sleep := 0
@@ -317,9 +325,13 @@ func (c *Conn) SetDeadline(t time.Time) error {
 }
 func (c *Conn) SetReadDeadline(t time.Time) error {
 	c.mu.Lock()
+	defer c.mu.Unlock()
+	if c.S.DeadConn && len(c.Writes) > 0 {
+		c.log("rdeadline", 0, c.injErr, nil)
+		return c.injErr
+	}
 	c.rdl = t
 	c.log("rdeadline", 0, nil, nil)
-	c.mu.Unlock()
 	return nil
 }
 func (c *Conn) SetWriteDeadline(t time.Time) error {
